@@ -14,6 +14,7 @@ INVARIANT RoundTripCell
 INVARIANT OrderPreserved
 INVARIANT ImpliedWellFormed
 INVARIANT ImpliedCount
+INVARIANT SubtractedConsistent
 INVARIANT TotalLen
 INVARIANT TotalBijective
 INVARIANT TotalLocalInRange
